@@ -307,6 +307,15 @@ func (x *Exec) oblige(st *State, kind, label string, goal *Term, desc string, po
 		}
 		return
 	}
+	// (=> A (and B C)) is discharged as (=> A B) and (=> A C): smaller queries, and a quantified conjunct becomes the goal of its own
+	if goal.Op == "=>" && len(goal.Args) == 2 && len(goal.Bound) == 0 && kind != "cover" {
+		if c := goal.Args[1]; c.Op == "and" && len(c.Bound) == 0 && len(c.Args) > 1 {
+			for _, g := range c.Args {
+				x.oblige(st, kind, label, mkImplies(goal.Args[0], g), desc, pos)
+			}
+			return
+		}
+	}
 	name := x.key + "#" + kind
 	if label != "" {
 		name += ":" + label
